@@ -149,6 +149,7 @@ updater:
 					o.Val = sizedValue(g.r, win.size, o.Val+"-")
 					closeAt, recoverAt = win.closeAt, b+2
 					r.Count("concurrent_sized_value_windows:"+sizeBucket(win.size), 1)
+					r.Count("concurrent_sized_value_windows", 1)
 				}
 			}
 			ops[j] = o
